@@ -70,10 +70,10 @@ func init() {
 	connVals := []string{"", "", "close", "Close", "CLOSE", "keep-alive", "Keep-Alive", "keep-alive, close", "keep-alive,close", "foo,close", "close, foo", "keep-alive,\tclose", "upgrade", "closed", "xclose", "close;q=1", "keep-alive\x00close2"}
 	Register(&Prop{
 		ID: "C10",
-		Rule: "server: histories of 1..5 pipelined requests (HTTP/1.0|1.1, Connection token lists in several cases/positions, one or two Connection lines, handler asking for close through ctx.SetConnectionClose / Response.Header.Set / a TimeoutErrorWithResponse response) x DisableKeepalive x MaxRequestsPerConn 0..3, " +
+		Rule: "server: histories of 1..5 pipelined requests (HTTP/1.0|1.1, Connection token lists in several cases/positions, one or two Connection lines, handler asking for close through ctx.SetConnectionClose / Response.Header.Set / a TimeoutErrorWithResponse response, or leaving a streamed request body unread) x DisableKeepalive x MaxRequestsPerConn 0..3, " +
 			"followed by a sentinel request that is served iff the connection is still open; client: HostClient doing two sequential requests against a scripted in-memory server whose first response carries a Connection variant; " +
 			"non-trivial = some request or response carries a Connection field or a limit is set; distinct = distinct input",
-		Parallel: true,
+		Parallel:    true,
 		Assumptions: []string{"CloseOnShutdown during shutdown is part of the model (respClose) but is not exercised by this harness (see C15)"},
 		Build: func(kind string, a [][]byte) *Case {
 			switch kind {
@@ -84,11 +84,13 @@ func init() {
 				var stream bytes.Buffer
 				type reqInfo struct {
 					h10, hclose bool
+					unread      bool
 					conn        []string
 				}
 				var reqs []reqInfo
 				line := [][]byte{a[0], a[1]}
 				nt := nka || mr > 0
+				streamUnread := false
 				for i := 2; i+4 < len(a)+0 && i+4 <= len(a)-1+1; i += 5 {
 					h10 := a[i+1][0] != 0
 					hc := a[i+2][0] != 0
@@ -110,12 +112,22 @@ func init() {
 						hc = false
 					case 4:
 						q = "?hcl=1"
+					case 5:
+						// StreamRequestBody: a request whose 9000-byte body the handler leaves unread (the connection
+						// must be closed after the response, which therefore has to say so)
+						q = "?rb=none"
+						streamUnread = true
 					}
 					ri.hclose = hc
+					ri.unread = a[i+2][0] == 5
 					if a[i+2][0] > 1 {
 						nt = true
 					}
-					fmt.Fprintf(&stream, "GET /r%d%s %s\r\nHost: h\r\n", len(reqs), q, ver)
+					if a[i+2][0] == 5 {
+						fmt.Fprintf(&stream, "POST /r%d%s %s\r\nHost: h\r\nContent-Length: 9000\r\n", len(reqs), q, ver)
+					} else {
+						fmt.Fprintf(&stream, "GET /r%d%s %s\r\nHost: h\r\n", len(reqs), q, ver)
+					}
 					line = append(line, []byte("R"), a[i+1], []byte{byte(b2i(hc))}, B("Host"), B("h"))
 					for _, cv := range [][]byte{a[i+3], a[i+4]} {
 						if string(cv) != "-" && len(cv) > 0 {
@@ -126,11 +138,14 @@ func init() {
 						}
 					}
 					stream.WriteString("\r\n")
+					if a[i+2][0] == 5 {
+						stream.Write(bytes.Repeat([]byte("u"), 9000))
+					}
 					reqs = append(reqs, ri)
 				}
 				// sentinel
 				stream.WriteString("GET /sentinel HTTP/1.1\r\nHost: h\r\n\r\n")
-				cfg := connCfg{NoKeepalive: nka, MaxReqs: mr}
+				cfg := connCfg{NoKeepalive: nka, MaxReqs: mr, Stream: streamUnread}
 				res := runConn(cfg, [][]byte{stream.Bytes()})
 				rs, perr := parseResponses(res.Trace.Out)
 				var sb []string
@@ -293,7 +308,7 @@ func init() {
 					}
 					hmode := byte(0)
 					if r.Chance(16) {
-						hmode = byte(1 + r.Intn(4))
+						hmode = byte(1 + r.Intn(5))
 					}
 					args = append(args, B("R"), []byte{byte(b2i(r.Chance(25)))}, []byte{hmode}, B(c1), B(c2))
 				}
